@@ -223,6 +223,19 @@ def _int_lit(t):
         return None
 
 
+def _subst_sym(v, old, new):
+    """rename the generic-element symbol inside a value"""
+    if isinstance(v, Sym):
+        return Sym(v.path.replace(old, new))
+    if isinstance(v, Poly):
+        return v.rename(lambda n: n.replace(old, new))
+    if isinstance(v, VOpaque):
+        return VOpaque(v.name, [_subst_sym(x, old, new) for x in v.args])
+    if isinstance(v, VTuple):
+        return VTuple([_subst_sym(x, old, new) for x in v.items])
+    return v
+
+
 def _exit_if_none(opt, ret):
     """ONE canonical form for "leave with Err(e) if the option is None", however it is written (`match .. None => return Err(e)`,
     `let Some(x) = .. else { return Err(e) }`, `.ok_or(e)?`)"""
@@ -698,7 +711,7 @@ class Interp:
             return DEP_CONSTS[last2]           # constants of the dependencies whose values are fixed by their source (listed)
         if len(segs) == 2 and segs[1].isupper() and segs[0] not in ("Self",):
             return Sym(last2)                  # an associated constant of another type (e.g. u64::SIZE): a symbol
-        ENUMS = ("Error", "PlonkVersion", "Selector", "WiredWitness")
+        ENUMS = ("Error", "PlonkVersion", "Selector", "WiredWitness", "WireData")
         if segs[0] in ENUMS or (len(segs) >= 2 and segs[-2] in ENUMS):
             return VOpaque(last2)
         self.fail(e, f"unknown path `{p}`")
@@ -1019,6 +1032,18 @@ class Interp:
             return self.decide(c)
         self.fail(node, "condition is not boolean")
 
+    def e_loop(self, e, env):
+        """`loop { .. }`: unrolled while the path decides to continue; at most 3 iterations per path (a loop that only ends on a
+        value-dependent condition has unboundedly many paths: beyond the bound the path is outside the fragment)"""
+        for _ in range(3):
+            try:
+                self.block(e["body"], env)
+            except Continue:
+                continue
+            except Break:
+                return UNIT
+        raise OutsideFragment("`loop` not finished after 3 iterations on this path")
+
     def e_while(self, e, env):
         """`while cond { body }` with a condition that becomes concrete per path; at most 4096 iterations"""
         n = 0
@@ -1129,11 +1154,21 @@ class Interp:
                 return self.expr(some[0]["body"], env2)
         if not isinstance(v, (VOpaque, bool, int)):
             self.fail(e, "match on a symbolic value")
+        v = _deref(v)
         for arm in e["arms"]:
             if arm["guard"] is not None:
                 self.fail(e, "match guard")
             if self.pat_matches(arm["pat"], v, e):
-                return self.expr(arm["body"], env)
+                env2 = env
+                pat = arm["pat"]
+                if pat["k"] == "tuple_struct" and isinstance(v, VOpaque):
+                    env2 = dict_child(env)
+                    for p_, a_ in zip(pat["elems"], v.args):
+                        self.bind(p_, a_, env2)
+                elif pat["k"] == "ident" and pat.get("name"):
+                    env2 = dict_child(env)
+                    self.bind(pat, v, env2)
+                return self.expr(arm["body"], env2)
         self.fail(e, "no match arm applies")
 
     def pat_matches(self, pat, v, node):
@@ -1143,6 +1178,8 @@ class Interp:
         if k == "wild":
             return True
         if k == "path" and isinstance(v, VOpaque) and not v.args:
+            return "::".join(pat["path"].split("::")[-2:]) == v.name
+        if k == "tuple_struct" and isinstance(v, VOpaque) and "::" in v.name and len(pat["elems"]) == len(v.args):
             return "::".join(pat["path"].split("::")[-2:]) == v.name
         if k == "lit" and isinstance(v, bool):
             return pat["text"] == str(v).lower()
@@ -1364,6 +1401,8 @@ class Interp:
             k = sum(1 for ev in self.ctx.log if ev and ev[0] == "read")
             self.ctx.event("read", k, segs[-2])
             return ("fallible", f"read {k} ({segs[-2]}) fails => Err", VOpaque("read", [k, segs[-2]]))
+        if len(segs) >= 2 and segs[-2] in ("WireData",) and name not in self.contracts:
+            return VOpaque(name, list(args))          # a tuple variant of a crate enum, constructed with concrete / symbolic payload
         if name == "Some" and len(args) == 1 and "Some" not in self.contracts:
             return VOpaque("Some", [args[0]])
         if name == "Ok":
@@ -1393,6 +1432,22 @@ class Interp:
 
     inline_depth = 0
 
+    def find_helper(self, short, want_recv):
+        """a crate fn / method named `short` in one of the unit's helper files (contract-less helpers, typically introduced by the
+        change under test, may live in another file of the crate): the unique fn whose path ends in `::short`"""
+        root = self.file_root[0]
+        for rel in getattr(self, "helper_files", ()) or ():
+            for path in fn_paths(root, rel):
+                if (path == short or path.endswith("::" + short)) and not path.startswith("test"):
+                    try:
+                        ast = dump_ast(root, rel, path)
+                    except AstLost:
+                        continue
+                    has_recv = any(p.get("recv") for p in ast["sig"]["params"])
+                    if has_recv == want_recv:
+                        return ast, f"{rel}::{path}"
+        return None, None
+
     def try_inline(self, name, args):
         root, rel, owner = self.file_root
         cands = [name] + ([f"{owner}::{name}"] if owner else [])
@@ -1403,6 +1458,8 @@ class Interp:
                 break
             except AstLost:
                 continue
+        if ast is None:
+            ast, _where = self.find_helper(name.split("::")[-1], False)
         if ast is None:
             return NotImplemented
         params = ast["sig"]["params"]
@@ -1435,6 +1492,8 @@ class Interp:
                 break
             except AstLost:
                 continue
+        if ast is None:
+            ast, _where = self.find_helper(m, True)
         if ast is None:
             return NotImplemented
         params = ast["sig"]["params"]
@@ -1469,9 +1528,12 @@ class Interp:
         args = [self.expr(a, env) for a in e["args"]]
         for key in self.method_keys(e, recv, m):
             if key in self.contracts:
+                n0 = len(self.ctx.exits)
                 r = self.contracts[key](self, recv, args)
                 if r is not NotImplemented:
                     self.calls.append(key)
+                    if isinstance(r, VOk) and len(self.ctx.exits) > n0:
+                        r.exits_span = (n0, len(self.ctx.exits))       # the callee's Err cases were logged as exits of THIS function
                     return r
         # ---- scalar methods
         if m == "invert" and not args and isinstance(_deref(recv), (Poly, Sym)):
@@ -1616,7 +1678,8 @@ class Interp:
             return len(recv.items) == 0
         if m in PURE_GETTERS and not args and isinstance(recv, (Sym, VOpaque, Poly)):
             return VOpaque(m, [recv])
-        if m in PURE_BINARY and len(args) == 1 and isinstance(recv, (Sym, VOpaque, Poly, int)):
+        if m in PURE_BINARY and len(args) == 1 and isinstance(recv, (Sym, VOpaque, Poly, int)) \
+                and not (isinstance(recv, VOpaque) and recv.name in ("Some", "None") and len(recv.args) <= 1):
             return VOpaque(m, [recv, args[0]])
         if isinstance(recv, VSymIter) and not args and m in ("copied", "cloned"):
             return recv
@@ -1661,9 +1724,15 @@ class Interp:
         # ---- vec / slice mutation
         if m in ("push", "extend", "extend_from_slice", "insert", "clear", "resize") and isinstance(recv, VOpaque) and recv.name.startswith("havoc:"):
             return UNIT          # an unknown collection stays unknown
+        if m in ("reserve", "reserve_exact", "shrink_to_fit") and isinstance(recv, (VCoeffVec, VArr)):
+            return UNIT          # capacity only
         if m == "push" and isinstance(recv, VCoeffVec):
             recv.push(args[0])
             return UNIT
+        if m == "map" and isinstance(args[0], VOpaque) and not args[0].args and args[0].name.split("::")[0] in ("WireData",) \
+                and (isinstance(recv, (VIter, VArr)) or (isinstance(recv, VRange) and isinstance(recv.lo, int) and isinstance(recv.hi, int))):
+            xs = list(range(recv.lo, recv.hi)) if isinstance(recv, VRange) else list(recv.items)
+            return VIter([VOpaque(args[0].name, [x]) for x in xs])
         if m == "map" and isinstance(recv, VRange) and isinstance(recv.lo, int) and isinstance(recv.hi, int) and isinstance(args[0], VClosure):
             return VIter([self.call_closure(args[0], [x]) for x in range(recv.lo, recv.hi)])
         if m == "push" and isinstance(recv, VArr):
@@ -1716,6 +1785,50 @@ class Interp:
                 if take:
                     kept.append(x)
             return VIter(kept)
+        if m in ("or_else", "or", "unwrap_or", "unwrap_or_else", "unwrap_or_default", "ok", "err", "is_ok", "is_err", "map_or", "map_or_else") \
+                and isinstance(recv, VOk) and getattr(recv, "exits_span", None):
+            # the callee's error cases were recorded as exits of this function on the assumption that its Result is propagated
+            # (`?` / returned as is).  A combinator that CONSUMES the error keeps the function going: those exits are withdrawn and
+            # the interception itself is recorded.
+            a0, a1 = recv.exits_span
+            withdrawn = self.ctx.exits[a0:a1]
+            del self.ctx.exits[a0:a1]
+            self.ctx.exits.append(("callee_errors_intercepted", m, len(withdrawn)))
+            alt = None
+            if args and isinstance(args[0], VClosure):
+                alt = self.call_closure(args[0], [VOpaque("callee_error")]) if len(args[0].params) == 1 else self.call_closure(args[0], [])
+            elif args:
+                alt = args[0]
+            return VOpaque(m, [recv.v, alt if alt is not None else UNIT])
+        if m in ("unwrap_or", "unwrap", "expect", "unwrap_or_else") and isinstance(recv, VOpaque) and recv.name in ("Some", "None") \
+                and len(recv.args) == (1 if recv.name == "Some" else 0):
+            if recv.name == "Some":
+                return recv.args[0]
+            if m == "unwrap_or":
+                return args[0]
+            if m == "unwrap_or_else" and isinstance(args[0], VClosure):
+                return self.call_closure(args[0], [])
+            self.ctx.exits.append(("panic", f"{m}() on None"))
+            return VOpaque("never")
+        if m in ("values", "keys", "into_values", "into_keys") and isinstance(recv, VArr) and recv.kind == "map" and not args:
+            k_ = 1 if "values" in m else 0
+            return VIter([t.items[k_] for t in recv.items])          # a map given as a list of (key, value) entries, in iteration order
+        if m in ("position", "rposition") and isinstance(recv, (VIter, VArr)) and isinstance(args[0], VClosure):
+            idxs = range(len(recv.items)) if m == "position" else range(len(recv.items) - 1, -1, -1)
+            for i in idxs:
+                if self.cond_value(self.call_closure(args[0], [recv.items[i]]), e):
+                    return VOpaque("Some", [i])
+            return VOpaque("None")
+        if m == "filter" and isinstance(recv, VSymIter) and isinstance(args[0], VClosure):
+            saved = self.ctx.log
+            self.ctx.log = []
+            cond = self.call_closure(args[0], [recv.elem])
+            if self.ctx.log:
+                self.ctx.log = saved
+                self.fail(e, "effects inside filter over a symbolic collection")
+            self.ctx.log = saved
+            fb = Sym(VOpaque("filter_each", [recv.base, cond]).canon())
+            return VSymIter(fb, base=fb, elem=_subst_sym(recv.elem, recv.base.path + "[*]", fb.path + "[*]"))
         if m == "rev" and isinstance(recv, VArr):
             return VIter(list(reversed(recv.items)))
         if m == "skip" and isinstance(recv, (VIter, VArr)) and isinstance(args[0], int):
@@ -1829,6 +1942,12 @@ class Interp:
             r = self.inline_method(recv, m, args, type_name=self.file_root[2].split("::")[-1])
             if r is not NotImplemented:
                 return r
+        if isinstance(recv, (VOpaque, Sym)) and getattr(self, "helper_files", None) and getattr(self, "file_root", None) and m not in PURE_GETTERS:
+            ast_, _w = self.find_helper(m, True)
+            if ast_ is not None:
+                r = self.inline_method(recv, m, args, type_name="__helper__")
+                if r is not NotImplemented:
+                    return r
         if isinstance(recv, VStruct):
             r = self.inline_method(recv, m, args)
             if r is not NotImplemented:
@@ -2062,6 +2181,22 @@ def _split_top(s):
 
 # ------------------------------------------------------------------------------------------------ units
 
+_FN_PATHS = {}
+
+
+def fn_paths(root, rel):
+    key = (root, rel)
+    if key not in _FN_PATHS:
+        p = os.path.join(root, rel)
+        out = []
+        if os.path.exists(p):
+            r = subprocess.run([VFX, "index", p], capture_output=True, text=True)
+            if r.returncode == 0:
+                out = [it["path"] for it in json.loads(r.stdout) if it["kind"] == "fn"]
+        _FN_PATHS[key] = out
+    return _FN_PATHS[key]
+
+
 _AST_CACHE = {}
 
 
@@ -2167,6 +2302,7 @@ def run_unit(root, unit, contracts, seed=0, perturb=None):
         it1 = Interp(ctx1, contracts, consts, src_name=f"{unit.file}::{unit.fn}")
         it1.trace_only, it1.tracked = unit.trace_only, unit.tracked
         it1.file_root = (root, unit.file, unit.fn.rsplit("::", 1)[0] if "::" in unit.fn else None)
+        it1.helper_files = list(getattr(unit, "helper_files", ()) or ())
         it1.decisions = list(decisions)
         env = ChildEnv(None)
         args1 = []
@@ -2206,6 +2342,7 @@ def run_unit(root, unit, contracts, seed=0, perturb=None):
         return res1, args1, ctx1, it1
 
     MAX_PATHS = getattr(unit, "max_paths", 64)
+    skipped = []
     paths = []
     stack = [[]]
     while stack:
@@ -2218,6 +2355,11 @@ def run_unit(root, unit, contracts, seed=0, perturb=None):
             if len(stack) + len(paths) > MAX_PATHS:
                 raise OutsideFragment(f"more than {MAX_PATHS} paths")
             continue
+        except OutsideFragment as ex:
+            if not dec:
+                raise                     # the very first run: nothing of the function is inside the fragment
+            skipped.append(str(ex))       # this path leaves the fragment; the others are still examined (a definite violation on
+            continue                      # one of them stands, otherwise the unit is UNDECIDED)
         paths.append(r)
     # ---- contract (single path; per code path for path-dependent contracts)
     def run_contract(pcs):
@@ -2306,6 +2448,8 @@ def run_unit(root, unit, contracts, seed=0, perturb=None):
             if k not in worst or (worst[k][0] and not ok) or (not worst[k][0] and worst[k][3] and not ok and not und):
                 worst[k] = (ok, detail, cex, und)      # definite failure > undecided failure > success
     definite = any((not ok) and (not und) for (ok, _d, _c, und) in worst.values())
+    if skipped and not definite:
+        raise OutsideFragment(f"{len(skipped)} path(s) leave the fragment and no other path shows a definite difference: {skipped[0][:300]}")
     for k, (ok, detail, cex, und) in worst.items():
         oid = f"{unit.name}.{k}"
         b = out2.get(k)
